@@ -304,6 +304,23 @@ def oracle_sn(case) -> Result:
                     after=float(get(name)))
         if res.discrepancies:
             return res
+    if case['dict'] and len(names) > 1:
+        # 'the architecture only': a metric of a dictionary specification has the value it has on
+        # an identically built model that knows this metric alone, whatever was read before it
+        for name in reversed(names):
+            _, sn1, _ = su.build_sn(spec, case['wseed'], cost=_spec_obj(name),
+                                    full_cost=case['full_cost'])
+            sn1.train()
+            sn1.update_softmax_options(temperature=case['temperature'], hard=False)
+            with torch.no_grad():
+                for nid, c1 in su.combiners(sn1).items():
+                    c1.alpha.copy_(combs[nid].alpha)
+            sn1(x0)
+            sn(x0)
+            a, b = float(get(name)), float(sn1.cost)
+            if abs(a - b) > 1e-5 * max(1.0, abs(b)):
+                res.bad('metric-of-a-dictionary-differs-from-the-same-metric-alone', metric=name,
+                        in_dictionary=a, alone=b, read_order=names)
     res.nontrivial = True
     res.ev(*[f"metric:{n}" for n in names])
     res.obs = {'finite_difference_probes': fd}
@@ -393,13 +410,18 @@ def oracle_mps(case) -> Result:
                         a.view(-1)[i] = old + delta
                     mps(x)
                     raised.append(float(get(name)))
+                # ... and the point must not sit just below a jump: a small DEcrease lowers it
+                with torch.no_grad():
+                    a.view(-1)[i] = old - 0.005
+                mps(x)
+                lowered = float(get(name))
                 with torch.no_grad():
                     a.view(-1)[i] = old
                 c2 = raised[1]
                 fd += 1
                 gi = 0.0 if g is None else float(g.flatten()[i])
                 tol = 1e-5 * max(1.0, cf)
-                if all(v - cf > tol for v in raised) and gi == 0.0:
+                if all(v - cf > tol for v in raised) and cf - lowered > tol and gi == 0.0:
                     res.bad('zero-gradient-although-raising-the-coefficient-raises-the-cost',
                             metric=name, selector=qn, index=i, cost=cf, cost_after=c2)
         mps(x)
